@@ -63,6 +63,12 @@ for d in sorted(glob.glob("/tmp/seed_C*/change*")) + sorted(glob.glob("/tmp/seed
         r = det["results"].get(prop) or next(iter(det["results"].values()))
         caught = r["verdict"]
         sig = (r["signatures"][0][:110] if r.get("signatures") else "")
+        if len(det["results"]) > 1:
+            # a change in code that only exists in another build configuration is owned by the check of that configuration
+            caught = "; ".join(f"{k}: {v['verdict']}" for k, v in det["results"].items())
+            for v in det["results"].values():
+                if v.get("signatures"):
+                    sig = v["signatures"][0][:110]
     rows.append((sid, prop, caught, sig, meta.get("summary", "")))
 with open(os.path.join(out_root, "README.md"), "w") as f:
     f.write("# Seeded changes (see DESIGN.md §8)\n\nEach directory: `patch.diff` (apply with `git -C /repo apply`), the demonstration, `meta.json`.\n\n")
